@@ -342,11 +342,16 @@ func (g *histGen) campaign() {
 		authority := vn.ModuleAddr("gov").String()
 		var msg sdk.Msg
 		kind := ""
-		pick := rng.Intn(7)
+		pick := rng.Intn(8)
 		if len(g.campKinds) > 0 {
 			pick = g.campKinds[rng.Intn(len(g.campKinds))]
 		}
+		forceFail := false
 		switch pick {
+		case 7: // the gas token itself: only ever proposed together with a failing message, so it is executed and rolled back
+			p := n.App.EvmKeeper.GetParams(n.Ctx())
+			p.EvmDenom = "aother"
+			msg, kind, forceFail = &evmtypes.MsgUpdateParams{Authority: authority, Params: p}, "evm.evm-denom", true
 		case 0:
 			p := n.App.EvmKeeper.GetParams(n.Ctx())
 			p.AllowUnprotectedTxs = !p.AllowUnprotectedTxs
@@ -405,7 +410,7 @@ func (g *histGen) campaign() {
 		if g.campFailEvery > 0 {
 			failEvery = g.campFailEvery
 		}
-		if rng.Intn(failEvery) == 0 {
+		if forceFail || rng.Intn(failEvery) == 0 {
 			// a second message that cannot succeed: the proposal passes the vote, executes the
 			// parameter change, fails, and everything it wrote is rolled back (status FAILED)
 			msgs = append(msgs, &banktypes.MsgSend{FromAddress: authority, ToAddress: a.Addr.String(), Amount: sdk.NewCoins(sdk.NewCoin(vn.Denom, sdkmath.NewIntWithDecimal(1, 40)))})
@@ -494,6 +499,27 @@ func (g *histGen) tx() {
 		default:
 			c := amt(10)
 			g.cosmos("bank.multisend-to-module-account", a, banktypes.NewMsgMultiSend([]banktypes.Input{{Address: a.Addr.String(), Coins: sdk.NewCoins(c)}}, []banktypes.Output{{Address: sdk.AccAddress(target.Bytes()).String(), Coins: sdk.NewCoins(c)}}))
+		}
+	case f == 45: // a grant applied with the stake option (the vested part is delegated by the vesting module itself), to a plain account or merged into a vesting account
+		unitc := sdk.NewCoin(vn.Denom, unit.MulRaw(int64(rng.Intn(900)+100)))
+		lock := sdkvesting.Periods{{Length: int64(rng.Intn(5000) + 10), Amount: sdk.NewCoins(unitc)}}
+		vest := sdkvesting.Periods{{Length: int64(rng.Intn(50) + 1), Amount: sdk.NewCoins(unitc)}}
+		target, merge, fu := b, false, a
+		if len(g.vestAccs) > 0 && rng.Intn(2) == 0 {
+			target, merge = g.vestAccs[rng.Intn(len(g.vestAccs))], true
+			if f, ok := g.vestFunder[target.Addr.String()]; ok {
+				fu = f
+			}
+		}
+		if !g.usedInBlk[fu.Addr.String()] || fu.Addr.Equals(a.Addr) {
+			g.usedInBlk[fu.Addr.String()] = true
+			if g.cosmos("vesting.convert-into-with-stake", fu, vestingtypes.NewMsgConvertIntoVestingAccount(fu.Addr, target.Addr, n.Time.Add(-time.Duration(rng.Intn(300)+60)*time.Second).UTC(), lock, vest, merge, true, val.ValAddr)) {
+				g.constr["grant-staked-by-the-vesting-module"]++
+				if !merge {
+					g.vestAccs = append(g.vestAccs, target)
+					g.vestFunder[target.Addr.String()] = fu
+				}
+			}
 		}
 	case f == 44: // a creation whose constructor writes storage and returns no code: an account with storage and the empty code hash
 		init := common.FromHex("0x602a600055602b60015500")
